@@ -123,7 +123,8 @@ void UtilContext::disasm(uint32_t start, uint32_t end)
 
   int data_size = 0;
 
-  uint32_t n = start;
+  // 64 bit counter: end can be 0xffffffff and a 32 bit one would wrap.
+  uint64_t n = start;
 
   while (n <= end)
   {
